@@ -67,6 +67,8 @@ def marginal_utility(c, eis):
 pair_het = _hh.add_hetinputs([pair_grids, pair_income, alter_Pi]).add_hetoutputs([marginal_utility])
 pair_stage = StageBlock([ExogenousMaker('Pi', 0, 'stage0'), Continuous1D(backward='Va', policy='a', f=household_new, name='stage1', hetoutputs=[marginal_utility])],
                         name='hh', backward_init=_hh_init, hetinputs=(pair_grids, pair_income, alter_Pi))
+pair_stage_bare = StageBlock([ExogenousMaker('Pi', 0, 'stage0'), Continuous1D(backward='Va', policy='a', f=household_new, name='stage1', hetoutputs=[marginal_utility])],
+                             name='hh_bare', backward_init=_hh_init)
 PAIR_CALIB = dict(r=0.01, eis=0.6, rho_e=0.9, sd_e=0.7, nE=3, amin=0.0, amax=80.0, nA=30, transfer=0.1, N=1.0, atw=1.0, beta=0.96, shift=0.0, risk=0.0)
 
 # ---- one-asset household whose Markov matrix is an ordinary (directly shockable) input --------------------------------
@@ -217,6 +219,19 @@ def household_loose(Va_p, a_grid, y, r, beta, eis, blim):
     return Va, a, c
 
 loose = household_loose.add_hetinputs([sim_income, sim_grids])
+
+def household_loose_stage(Va, a_grid, y, r, beta, eis, blim):
+    uc_nextgrid = beta * Va
+    c_nextgrid = uc_nextgrid ** (-eis)
+    coh = (1 + r) * a_grid[np.newaxis, :] + y[:, np.newaxis]
+    a = interpolate.interpolate_y(c_nextgrid + a_grid, coh, a_grid)
+    a = np.maximum(a, blim)
+    c = coh - a
+    Va = (1 + r) * c ** (-1 / eis)
+    return Va, a, c
+
+loose_stage = StageBlock([ExogenousMaker('Pi', 0, 'shock'), Continuous1D(backward='Va', policy='a', f=household_loose_stage, name='consav')],
+                         name='loose_stage', backward_init=loose_init, hetinputs=[sim_income, sim_grids])
 LOOSE_CALIB = dict(SIM_CALIB, blim=0.0)
 
 # ---- (unused placeholder) ---------
